@@ -131,8 +131,29 @@ fn req_type_of(r: &RepairRequest) -> MReqType {
     to_mirror::<RepairRequest, MRequest>(r).req
 }
 
+#[derive(Clone, Copy, Debug, PartialEq, Eq, Default)]
+pub enum Preheld {
+    #[default]
+    Nothing,
+    /// a few genuine dissemination shreds of the same block (dissemination was incomplete)
+    SameBlockPartial,
+    /// dissemination shreds of another block the (equivocating) leader signed for this slot
+    ConflictingBlock,
+}
+
+#[derive(Clone, Copy, Debug, Default)]
+pub struct Env {
+    pub preheld: Preheld,
+    /// the pool asks again for the repair of the same block right after this request position
+    pub retrigger_after: Option<usize>,
+}
+
 /// Runs one history: hostile deviations at the given request positions, everything else answered correctly.
 fn run_history(fx: &Fixture, deviations: &BTreeMap<usize, Hostile>) -> Outcome {
+    run_history_env(fx, deviations, Env::default())
+}
+
+fn run_history_env(fx: &Fixture, deviations: &BTreeMap<usize, Hostile>, env: Env) -> Outcome {
     let rt = tokio::runtime::Builder::new_current_thread().enable_all().start_paused(true).build().unwrap();
     let res = std::panic::catch_unwind(std::panic::AssertUnwindSafe(|| {
         rt.block_on(async {
@@ -142,7 +163,25 @@ fn run_history(fx: &Fixture, deviations: &BTreeMap<usize, Hostile>) -> Outcome {
             let (bs_tx, _bs_rx) = mpsc::channel(4096);
             let (pool_tx, _pool_rx) = mpsc::channel(4096);
             let (rep_tx, _rep_rx) = mpsc::channel(4096);
-            let vbs = Arc::new(RwLock::new(BlockstoreImpl::new(bs_tx)));
+            let mut vstore = BlockstoreImpl::new(bs_tx);
+            match env.preheld {
+                Preheld::Nothing => {}
+                Preheld::SameBlockPartial => {
+                    for set in &fx.block.shreds {
+                        for s in set.iter().skip(3).take(5) {
+                            let _ = vstore.add_shred_from_dissemination(s.clone()).await;
+                        }
+                    }
+                }
+                Preheld::ConflictingBlock => {
+                    for set in &fx.alt_data {
+                        for s in set.iter().skip(3).take(5) {
+                            let _ = vstore.add_shred_from_dissemination(s.clone()).await;
+                        }
+                    }
+                }
+            }
+            let vbs = Arc::new(RwLock::new(vstore));
             let blockstore: SharedBlockstore = vbs.clone();
             let pool: SharedPool = Arc::new(RwLock::new(PoolImpl::new(fx.epoch.vei(victim), pool_tx, rep_tx)));
             let (vnet, vout, vin) = endpoint::<RepairRequest, RepairResponse>();
@@ -216,6 +255,10 @@ fn run_history(fx: &Fixture, deviations: &BTreeMap<usize, Hostile>) -> Outcome {
                 }
                 let req = pending.pop_front().unwrap();
                 position += 1;
+                if env.retrigger_after == Some(position) {
+                    trigger_tx.send(id.clone()).await.unwrap();
+                    settle().await;
+                }
                 if position > 2000 {
                     break;
                 }
@@ -324,6 +367,10 @@ fn run_history(fx: &Fixture, deviations: &BTreeMap<usize, Hostile>) -> Outcome {
                         if s.slice_root() != &fx.block.roots[j] {
                             foreign = true;
                         }
+                        // whatever is stored (and will be served to others) must carry the leader's signature
+                        if alpenglow::shredder::ValidatedShred::try_new(s.as_shred().clone(), None, &fx.epoch.sig_sks[0].to_pk()).is_err() {
+                            foreign = true;
+                        }
                     }
                 }
             }
@@ -341,8 +388,20 @@ fn run_history(fx: &Fixture, deviations: &BTreeMap<usize, Hostile>) -> Outcome {
 }
 
 fn judge(report: &Report, fx_name: &str, devs: &BTreeMap<usize, Hostile>, o: &Outcome, req_kind: &dyn Fn(usize) -> &'static str) {
-    let desc: Vec<String> = devs.iter().map(|(p, h)| format!("{h:?}@{}#{p}", req_kind(*p))).collect();
-    let class: Vec<String> = devs.iter().map(|(p, h)| format!("{h:?}@{}", req_kind(*p))).collect();
+    judge_env(report, fx_name, devs, o, req_kind, Env::default())
+}
+
+fn judge_env(report: &Report, fx_name: &str, devs: &BTreeMap<usize, Hostile>, o: &Outcome, req_kind: &dyn Fn(usize) -> &'static str, env: Env) {
+    let mut desc: Vec<String> = devs.iter().map(|(p, h)| format!("{h:?}@{}#{p}", req_kind(*p))).collect();
+    let mut class: Vec<String> = devs.iter().map(|(p, h)| format!("{h:?}@{}", req_kind(*p))).collect();
+    if env.preheld != Preheld::Nothing {
+        desc.push(format!("preheld:{:?}", env.preheld));
+        class.push(format!("preheld:{:?}", env.preheld));
+    }
+    if let Some(p) = env.retrigger_after {
+        desc.push(format!("repair-requested-again-after#{p}"));
+        class.push("repair-requested-again".to_string());
+    }
     let replay = json!({"block": fx_name, "hostile_answers": desc});
     if let Some(p) = &o.panic {
         report.violation(format!("C14:harness-panics:{}", class.join("+")), p.clone(), replay.clone());
@@ -568,6 +627,28 @@ pub fn run(tier: Tier) -> i32 {
             samples.push(|| json!({"block": name, "hostile": d.iter().map(|(p, h)| format!("{h:?}@{}#{p}", kind_of(*p))).collect::<Vec<_>>(), "stored": o.stored, "timeouts": o.timeouts, "requests": o.requests}));
             judge(&report, &name, d, o, &kind_of);
         }
+        // environment variants: dissemination shreds already held, repair requested again
+        let mut env_jobs: Vec<(BTreeMap<usize, Hostile>, Env)> = Vec::new();
+        for pre in [Preheld::SameBlockPartial, Preheld::ConflictingBlock] {
+            let env = Env { preheld: pre, retrigger_after: None };
+            env_jobs.push((BTreeMap::new(), env));
+            for p in [1usize, 2, 2 + nslices, 3 + nslices, 1 + nslices + 20] {
+                for h in [Hostile::ShredCorrupted, Hostile::OtherSignedSlice, Hostile::SameRootOtherLastFlag, Hostile::InvalidProof, Hostile::Nack] {
+                    env_jobs.push(([(p, h)].into_iter().collect(), env));
+                }
+            }
+        }
+        for p in [1usize, 2, 1 + nslices, 2 + nslices, 1 + nslices + 16, 1 + nslices + 31, 1 + nslices + 32, 1 + nslices + 33, 1 + nslices + 40, nreq.saturating_sub(1)] {
+            let env = Env { preheld: Preheld::Nothing, retrigger_after: Some(p) };
+            env_jobs.push((BTreeMap::new(), env));
+            env_jobs.push(([(p + 1, Hostile::DuplicateAnswer)].into_iter().collect(), env));
+            env_jobs.push(([(p + 1, Hostile::Nack)].into_iter().collect(), env));
+        }
+        let env_outcomes: Vec<(BTreeMap<usize, Hostile>, Env, Outcome)> = env_jobs.into_par_iter().map(|(d, e)| { let o = run_history_env(&fx, &d, e); (d, e, o) }).collect();
+        for (d, e, o) in &env_outcomes {
+            evals += 1;
+            judge_env(&report, &name, d, o, &kind_of, *e);
+        }
         let resp = responder_sweep(&report, &fx);
         evals += resp;
         fam.push(json!({"block": name, "requests_in_clean_repair": nreq, "histories": outcomes.len() + 1, "single_deviation_positions": positions.len(), "responder_cases": resp}));
@@ -576,7 +657,7 @@ pub fn run(tier: Tier) -> i32 {
     let cov = json!({
         "evaluations": evals,
         "distinct_nontrivial": evals,
-        "rule": "real Repair loop and real RepairRequestHandler in a paused single-threaded runtime; default = every request answered correctly by the honest peer; every history with 1 hostile answer (12 kinds: NACK, silence, wrong variant, invalid proof, wrong index, wrong root, replay of another answer, shred/root of another validly signed slice of the leader, same root with other last flag, unsolicited answer first, duplicate answer, corrupted signature / over-long proof / inflated slice count) at every listed request position, and pairs of hostile answers on a position/kind subset; after the last hostile answer every request is answered correctly and up to 4 request time-outs may elapse: the repair task must be alive, nothing foreign may be stored under the requested id and the block must end up stored; plus the responder sweep (request kind x index x holding state x sender); every history / responder case is distinct and non-trivial",
+        "rule": "real Repair loop and real RepairRequestHandler in a paused single-threaded runtime; default = every request answered correctly by the honest peer; every history with 1 hostile answer (12 kinds: NACK, silence, wrong variant, invalid proof, wrong index, wrong root, replay of another answer, shred/root of another validly signed slice of the leader, same root with other last flag, unsolicited answer first, duplicate answer, corrupted signature / over-long proof / inflated slice count) at every listed request position, and pairs of hostile answers on a position/kind subset; environment variants (victim already holds a few dissemination shreds of the same block / of a conflicting block of the leader; the pool requests the same repair again at various points); after the last hostile answer every request is answered correctly and up to 4 request time-outs may elapse: the repair task must be alive, nothing foreign may be stored under the requested id and the block must end up stored; plus the responder sweep (request kind x index x holding state x sender); every history / responder case is distinct and non-trivial",
         "exhaustive": true,
         "families": fam,
         "samples": samples.items,
